@@ -279,13 +279,23 @@ def answerFilter (f : Acs) (r : Response) : Except Err Response :=
       .error (.noRecords true none [] [] none)
     else .ok { r with answers, authorities, additionals }
 
+/-- `strip_denied_addresses` (fix a600360): the answer filter applied to the payload of a
+`NoRecordsFound` outcome — authority records and referral glue (the SOA and the NS records carry
+no address). -/
+def stripDenied (f : Acs) : Err → Err
+  | .noRecords nx soa ns auths negTtl =>
+    .noRecords nx soa (ns.map fun e => (e.1, e.2.filter (addrAllowed f)))
+      (auths.filter (addrAllowed f)) negTtl
+  | e => e
+
 /-- `NameServerPool::lookup` -/
 def poolLookup (cfg : Config) (net : Net) (pool : Pool) (q : Query) (st : St) :
     St × Except Err Response :=
   let st := { st with lookups := st.lookups + 1 }
   match trySend net q pool.ips st with
   | (st, .ok r) => (st, answerFilter cfg.answerFilter r)
-  | (st, .error e) => (st, .error e)
+  | (st, .error e) =>
+    (st, .error (if cfg.answerFilter.allowsAll then e else stripDenied cfg.answerFilter e))
 
 /-! ## the response cache (crates/resolver/src/cache.rs) as one request sees it -/
 
@@ -605,9 +615,8 @@ def negativeWithForeignRecords (zone : Name) (q : Query) (r : Response) : Bool :
    | _ => false) &&
     (r.authorities ++ r.additionals).any fun x => !isSubzone zone x.name
 
-/-- `C19.NegativeResponseAnswerFilterSkipped`: `NameServerPool::send` applies the answer filter to
-positive responses only, so a negative response keeps the (in-bailiwick) address records of its
-authority / additional section that the filter denies. -/
+/-- (historic, fixed by a600360 — kept as the shape of the regression cases) a negative response
+whose authority / additional section carries an address record the answer filter denies. -/
 def negativeWithDeniedAddress (f : Acs) (q : Query) (r : Response) : Bool :=
   (match fromResponse q r with
    | .error (.noRecords ..) => true
